@@ -323,24 +323,43 @@ def r3_regex(ctx) -> None:
     else:
         r.violation("C05.R3", g.qual, "RegexTransformation.apply_string_value", "sibling regex rendering disagrees: every string part must go through re.escape and wildcards map to '.*'/'.'", g.loc)
     h = prog.func(T + ".SigmaRegularExpression.escape")
-    rdef = [v for v in assignments_to(h.node, "r") if isinstance(v, ast.AST)]
-    want_r = "'|'.join([re.escape(e) for e in [*escaped, escape_char if escape_escape_char else None] if e is not None])"
-    if len(rdef) == 1 and unparse(rdef[0]) == want_r:
-        r.ok("C05.R3", h.qual, "r = alternation of re.escape(e) for the escaped strings (in order) and the escape character", h.loc)
+    # escape() interpreted (sa.tabulate, Proxy; `re` is the only library) on stand-in expressions over escaped-string lists
+    # (order matters: the alternation is ordered), escape characters, the escape-the-escape switch and flags
+    import re as _re
+    from ..tabulate import Proxy, call_method
+    from .standins import string_standin
+    Str, _Cs, _PHc, _spc, senv = string_standin(ctx)
+    env = dict(senv, re=_re, cast=lambda t, v: v, SigmaPlaceholderError=type("SigmaPlaceholderError", (Exception,), {}))
+    RX = T + ".SigmaRegularExpression"
+    flagmap = {"I": "i", "M": "m", "S": "s"}
+
+    def ref_escape(text, escaped, esc, ee, flags, fp):
+        alts = [e for e in [*escaped, esc if ee else None] if e is not None]
+        rx = "|".join(_re.escape(e) for e in alts)
+        pos = {m.start() for m in _re.finditer(rx, text)} if rx else set()
+        body = "".join((esc if i_ in pos else "") + ch for i_, ch in enumerate(text))
+        return ("(?" + "".join(sorted(flagmap[f_] for f_ in flags)) + ")" if fp and flags else "") + body
+
+    bad = []
+    n = 0
+    for text in ("foo/bar", "a\\b", "a/b/c\\/", "", "//", "abab", "a.b", "x\\\\/y"):
+        for escaped in ((), ("/",), ("/", "bar"), ("ab", "a"), ("a", "ab"), (".",)):
+            for esc, ee in (("\\", True), ("\\", False), ("^", True)):
+                for flags, fp in ((set(), True), ({"I"}, True), ({"S", "I", "M"}, True), ({"I"}, False)):
+                    n += 1
+                    me = Proxy(prog, RX, env, {"regexp": Str([text] if text else []), "flags": set(flags), "sigma_to_re_flag": dict(flagmap)}, interp_kwargs={"max_steps": 8000})
+                    try:
+                        got = call_method(prog, RX, "escape", me, env, tuple(escaped), esc, ee, fp, interp_kwargs={"max_steps": 8000})
+                    except Raised as ex:
+                        got = f"<raises {ex}>"
+                    want = ref_escape(text, escaped, esc, ee, flags, fp)
+                    if got != want:
+                        bad.append(f"expression {text!r}, escaped {escaped}, escape character {esc!r} (itself escaped: {ee}), flags {sorted(flags)} (prefix: {fp}): {got!r} instead of {want!r}")
+    if not bad:
+        r.ok("C05.R3", h.qual, f"escape() interpreted on {n} cases: the escape character is inserted at every match of the plain, ordered alternation of the escaped strings and (if asked) the escape character; the text is otherwise unchanged; the flag prefix lists the flags in sorted order", h.loc)
     else:
-        r.violation("C05.R3", h.qual, f"r = {short(rdef[0], 160) if rdef else None}",
-                    "the positions to escape must be every match of the plain, ordered alternation of the escaped strings and the escape character: look-around context ('already escaped'), sets (unordered alternation) or other additions change where escape characters are inserted", h.loc)
-    fi = [c for c in walk_no_nested(h.node) if isinstance(c, ast.Call) and call_name(c) == "re.finditer"]
-    if fi and [unparse(a) for a in fi[0].args] == ["r", "regexp_str"]:
-        r.ok("C05.R3", h.qual, "positions = starts of re.finditer(r, regexp_str)", h.loc)
-    else:
-        r.violation("C05.R3", h.qual, short(fi[0]) if fi else "re.finditer", "escape positions are not the matches of r in the expression text", h.loc)
-    rets = [x for x in walk_no_nested(h.node) if isinstance(x, ast.Return)]
-    if rets and unparse(rets[-1].value) == "prefix + escape_char.join([regexp_str[i:j] for i, j in ranges])":
-        r.ok("C05.R3", h.qual, "escape character inserted at every position, text otherwise unchanged", h.loc)
-    else:
-        r.violation("C05.R3", h.qual, stmt_head(rets[-1]) if rets else "return", "result is not the expression text with the escape character inserted at the positions", h.loc)
-    r.floor("C05.R3", 7)
+        r.violation("C05.R3", h.qual, f"escape(): {bad[0]}", f"{len(bad)} of {n} interpreted cases deviate: the positions to escape must be every match of the plain, ordered alternation of the escaped strings and the escape character: look-around context ('already escaped'), sets (unordered alternation) or other additions change where escape characters are inserted", h.loc)
+    r.floor("C05.R3", 5)
 
 
 def r4_field_names(ctx) -> None:
